@@ -9,7 +9,8 @@ package rtmp
 //@ type MessagePacker nonnil b
 //@ type StreamMsg nonnil buff
 //@ type ChunkComposer nonnil csid2stream
-//@ type Buffer invariant [C17.buf] 0 <= self.readPos && self.readPos <= self.writePos && self.writePos <= len(self.core) && cap(self.core) == len(self.core)
+//@ type ChunkDivider invariant [C08.divider] 1 <= self.localChunkSize && self.localChunkSize <= 1<<24
+//@ type Buffer invariant [C17.buf] slow: 0 <= self.readPos && self.readPos <= self.writePos && self.writePos <= len(self.core) && cap(self.core) == len(self.core)
 
 // ---- chunk header spec functions (RTMP 1.0 §5.3.1) ----------------------------------------------------------------
 //@ pure be24(b []byte, i int) uint32 = uint32(b[i])<<16 | uint32(b[i+1])<<8 | uint32(b[i+2])
@@ -30,7 +31,7 @@ package rtmp
 //@   ensures [C08.csid]   csidOf(out) == header.Csid
 //@   ensures [C08.fmt]    out[0]>>6 == (prevHeader == nil ? 0 : 3)
 //@   ensures [C08.f0.ts]  prevHeader == nil ==> be24(out, m) == (ext ? 0xFFFFFF : ts)
-//@   ensures [C08.f0.len] prevHeader == nil ==> be24(out, m+3) == header.MsgLen & 0xFFFFFF && out[m+6] == header.MsgTypeId && le32(out, m+7) == uint32(header.MsgStreamId)
+//@   ensures [C08.f0.len] slow: prevHeader == nil ==> be24(out, m+3) == header.MsgLen & 0xFFFFFF && out[m+6] == header.MsgTypeId && le32(out, m+7) == uint32(header.MsgStreamId)
 //@   ensures [C08.f0.ext] prevHeader == nil ==> result == m + 11 + (ext ? 4 : 0) && (ext ==> be32(out, m+11) == ts)
 //@   ensures [C08.f3.ext] prevHeader != nil ==> result == m + (ext ? 4 : 0) && (ext ==> be32(out, m) == ts)
 //@ end
@@ -45,7 +46,7 @@ package rtmp
 //@ func (*Buffer).grow
 //@   props C17 C04
 //@   requires 0 <= n && n <= 1<<32
-//@   ensures [C17.grow.room] len(b.core) - b.writePos >= n
+//@   ensures [C17.grow.room] slow: len(b.core) - b.writePos >= n
 //@   ensures [C17.grow.len]  b.writePos - b.readPos == old(b.writePos - b.readPos)
 //@   ensures [C17.grow.data] forall i in [0, b.writePos - b.readPos) :: b.core[b.readPos+i] == old(b.core[b.readPos+i])
 //@ end
@@ -80,7 +81,7 @@ package rtmp
 //@   loop 1 decreases numOfChunk - i
 //@   loop 1 step [C08.chunk.hdr]  headLen == (old(i) == 0 ? m + 11 + extn : m + extn)
 //@   loop 1 step [C08.chunk.size] index - old(index) - headLen == (old(i) == numOfChunk-1 ? lastChunkSize : chunkSize)
-//@   loop 1 step [C08.chunk.body] forall j in [0, index - old(index) - headLen) :: out[old(index)+headLen+j] == message[old(i)*chunkSize+j]
+//@   loop 1 step [C08.chunk.body] slow: forall j in [0, index - old(index) - headLen) :: out[old(index)+headLen+j] == message[old(i)*chunkSize+j]
 //@   ensures [C08.fresh] fresh(result)
 //@   ensures [C08.total] thorough len(result) == len(message) + m + 11 + extn + (numOfChunk-1)*(m+extn)
 //@ end
@@ -104,6 +105,8 @@ package rtmp
 
 //@ func (amf0).ReadString
 //@   props C18 C04
+//@   ensures [C18.rstr.total.long] len(b) >= 5 && b[0] == 12 && b[1] == 0 && b[2] == 0 && b[3] == 0 && int(b[4]) <= len(b) - 5 ==> err == nil && l == 5 + int(b[4])
+//@   ensures [C18.rstr.total.short] len(b) >= 3 && b[0] == 2 && int(be16(b, 1)) <= len(b) - 3 ==> err == nil && l == 3 + int(be16(b, 1))
 //@   ensures [C18.rstr.ok] err == nil ==> 3 <= l && l <= len(b) && (b[0] == 2 || b[0] == 12) && (b[0] == 2 ==> l == 3 + int(be16(b, 1)) && len(val) == l - 3)
 //@ end
 
@@ -132,7 +135,7 @@ package rtmp
 //@   requires 0 <= index && index <= len(b) && 0 <= depth && depth <= 64
 //@   decreases 2*(65 - depth)
 //@   stackbound 200
-//@   ensures [C18.read.progress] result2 == nil ==> index < result1 && result1 <= len(b)
+//@   ensures [C18.read.progress] slow: result2 == nil ==> index < result1 && result1 <= len(b)
 //@ end
 
 //@ func (amf0).readObject
@@ -183,4 +186,39 @@ package rtmp
 //@ func (amf0).ReadObjectOrArray
 //@   props C18 C04
 //@   ensures [C18.objarr.ok] result2 == nil ==> 4 <= result1 && result1 <= len(b)
+//@ end
+
+// ---- signalling messages: one chunk only while the body fits the announced chunk size (C08, C17) -------------------
+// "调用方应自己保证在 bodyLen 小于 chunk size 时使用" — the function's own documentation is its precondition.
+//@ func writeSingleChunkHeader
+//@   props C08 C17 C04
+//@   requires len(out) >= 12 && 2 <= csid && csid <= 63 && 0 <= bodyLen && bodyLen <= LocalChunkSize && bodyLen < 1<<24
+//@   ensures [C08.sch.basic] out[0] == uint8(csid) && out[1] == 0 && out[2] == 0 && out[3] == 0
+//@   ensures [C08.sch.len]   be24(out, 4) == uint32(bodyLen) && out[7] == typeid && le32(out, 8) == uint32(streamid)
+//@ end
+
+//@ func (*MessagePacker).ChunkAndWrite
+//@   props C08 C17 C04
+//@   requires writer != nil && packer.b.writePos - packer.b.readPos >= 12 && packer.b.writePos - packer.b.readPos < 1<<24 && 2 <= csid && csid <= 63
+//@ end
+
+// ---- @setDataFrame (C18: "adding or stripping the prefix preserves the remaining metadata bytes exactly") ----------
+//@ pure isSdfShort(b []byte) bool = len(b) >= 16 && b[0] == 2 && b[1] == 0 && b[2] == 13 && b[3] == '@' && b[4] == 's' && b[5] == 'e' && b[6] == 't' && b[7] == 'D' && b[8] == 'a' && b[9] == 't' && b[10] == 'a' && b[11] == 'F' && b[12] == 'r' && b[13] == 'a' && b[14] == 'm' && b[15] == 'e'
+//@ pure isSdfLong(b []byte) bool = len(b) >= 18 && b[0] == 12 && b[1] == 0 && b[2] == 0 && b[3] == 0 && b[4] == 13 && b[5] == '@' && b[6] == 's' && b[7] == 'e' && b[8] == 't' && b[9] == 'D' && b[10] == 'a' && b[11] == 't' && b[12] == 'a' && b[13] == 'F' && b[14] == 'r' && b[15] == 'a' && b[16] == 'm' && b[17] == 'e'
+
+//@ func MetadataEnsureWithoutSdf
+//@   props C18 C01
+//@   requires len(b) < 1<<24
+//@   ensures [C18.sdf.strip.short] slow: isSdfShort(b) ==> result1 == nil && len(result0) == len(b) - 16 && forall i in [0, len(b) - 16) :: result0[i] == b[16+i]
+//@   ensures [C18.sdf.strip.long]  slow: isSdfLong(b) ==> result1 == nil && len(result0) == len(b) - 18 && forall i in [0, len(b) - 18) :: result0[i] == b[18+i]
+//@   ensures [C18.sdf.strip.err]   result1 != nil ==> len(result0) == len(b) && forall i in [0, len(b)) :: result0[i] == b[i]
+//@   ensures [C18.sdf.strip.fresh] len(result0) > 0 ==> fresh(result0)
+//@ end
+
+// Session plumbing used from pkg/logic: bodies not followed from there (assumed panic-free, listed as trusted).
+//@ func (*PullSession).Dispose
+//@   trusted
+//@ end
+//@ func (*PullSession).UniqueKey
+//@   trusted
 //@ end
